@@ -3,10 +3,16 @@
    reached s sched = the state after the micro-steps named by the (arbitrary) list of thread ids `sched`, from the start of
    scenario s, with the wiring table regenerated from the source (gen/Gen_C10.v) and the repaired reporter;
    complete = run the lowest runnable thread until nothing can move;
-   completed_obs c s sched = the observation (C10_Model.observe) of the execution that follows sched and is then completed,
-   including the largest number of threads that were inside the locked region at one moment on the way. *)
+   a scenario may go on in further EPOCHS (sc_more): all threads finish, the test thread flips switches of the overloads
+   (turnOff / turnOnDefault / turnOnThreadSafe / saveAndDisable / restore), all threads run their next scripts.  The theorems
+   that speak of `reached s sched` are about the first epoch (it follows turnOnThreadSafeNewDeleteOverloads directly);
+   C10_every_epoch_thread_safe says the same of every state of every further epoch;
+   resched s sched scheds = the scenario s with other schedules (the first epoch's, then one per further epoch);
+   run s = the observation (C10_Model.observe) of all epochs, each following its schedule and then completed, including the
+   largest number of threads that were inside the locked region at one moment on the way and, per epoch, the calls of entry
+   points made and the calls that took the lock. *)
 From Coq Require Import NArith Arith Bool List.
-From CppUVerif Require Import C10_Wiring gen.Gen_C10 C10_Model C10_Steps C10_Lock C10_Data C10_Sched C10_Proofs C10_Main C10_Theorems C10_Refused.
+From CppUVerif Require Import C10_Wiring gen.Gen_C10 C10_Model C10_Steps C10_Lock C10_Data C10_Sched C10_Proofs C10_Main C10_Compose C10_Theorems C10_Refused C10_Epochs.
 Import ListNotations.
 
 (* over the table regenerated from MemoryLeakWarningPlugin.cpp: each of the eleven function pointers set by
@@ -66,17 +72,18 @@ Theorem C10_serialisable : forall s sched,
 Proof. exact serialisable_in_acquisition_order. Qed.
 Print Assumptions C10_serialisable.
 
-(* for ALL schedules: completed, the observation satisfies the oracle (outstanding set = union of the per-thread sequential
-   results, a misuse fails exactly its test, allocation numbers handed out once each, nothing foreign outstanding) *)
-Theorem C10_schedule_independent : forall s sched, valid s = true ->
-  spec s (completed_obs (the_cfg s) s sched) = true.
+(* for ALL schedules of all epochs: completed, the observation satisfies the oracle (outstanding set = union of the per-thread
+   sequential results, a misuse fails exactly its test, allocation numbers handed out once each, nothing foreign
+   outstanding, never two threads in the locked region, every call locked while the switches say "thread-safe") *)
+Theorem C10_schedule_independent : forall s sched scheds, valid s = true ->
+  spec s (run (resched s sched scheds)) = true.
 Proof. exact schedule_independent. Qed.
 Print Assumptions C10_schedule_independent.
 
-(* so any two schedules of one scenario agree on verdicts, number of allocations and outstanding set *)
-Theorem C10_two_schedules_agree : forall s sched1 sched2, valid s = true ->
-  let o1 := completed_obs (the_cfg s) s sched1 in
-  let o2 := completed_obs (the_cfg s) s sched2 in
+(* so any two choices of schedules for one scenario agree on verdicts, number of allocations and outstanding set *)
+Theorem C10_two_schedules_agree : forall s sched1 scheds1 sched2 scheds2, valid s = true ->
+  let o1 := run (resched s sched1 scheds1) in
+  let o2 := run (resched s sched2 scheds2) in
   o_verdicts o1 = o_verdicts o2 /\ o_adv o1 = o_adv o2 /\ incl (o_entries o1) (o_entries o2) /\ incl (o_entries o2) (o_entries o1).
 Proof. exact two_schedules. Qed.
 Print Assumptions C10_two_schedules_agree.
@@ -161,3 +168,68 @@ Example C10_refused_realloc_changes_nothing_sat :
        /\ th_phase th = PIdle /\ th_skip th = false /\ st_lock (reached refused_scenario sched) = LFree)
   /\ o_entries (run refused_scenario) = [(1, 0, 8%N)].
 Proof. exact (conj refused_valid (conj refused_ex_commit (conj refused_ex_operation (proj2 (proj2 (proj2 refused_ex_run)))))). Qed.
+
+(* ---------------------------------------------------------------- round 4: the history of the overload switches *)
+(* the switch machine of the source (eleven pointers, eleven saved_ pointers, save_counter; sw_run h = its state after the
+   history h, started where turnOnThreadSafeNewDeleteOverloads has been called) against what the five switches mean
+   (doc_mode: inside a saveAndDisable .. restore bracket nothing, outside the overloads named by the last direct switch):
+   after every history in which every restore closes a saveAndDisable and the direct switches are used outside the
+   brackets, the wiring in force is the one the meaning names; whenever the meaning says "thread-safe" it is the table in
+   which all eleven entry points take the lock -- however many save/restore cycles, nested or not, lie in between *)
+Theorem C10_switches_keep_thread_safe : forall h, hist_ok h 0 = true ->
+  sw_cur (sw_run h) = table_of (doc_mode h)
+  /\ (doc_safe h = true -> sw_cur (sw_run h) = ts_table /\ wiring_ok (sw_cur (sw_run h)) = true).
+Proof. exact switches_theorem. Qed.
+Print Assumptions C10_switches_keep_thread_safe.
+Example C10_switches_keep_thread_safe_sat :
+  hist_ok [SwSave; SwSave; SwRestore; SwRestore; SwOff; SwSafe; SwSave; SwRestore] 0 = true
+  /\ doc_safe [SwSave; SwSave; SwRestore; SwRestore; SwOff; SwSafe; SwSave; SwRestore] = true.
+Proof. exact sw_hist_example. Qed.
+
+(* every call takes the lock: (1) under a wiring in which all entry points lock, the calls an epoch makes (the probe, the
+   scripts' operations that are not skipped, the output's new[] / delete[]) and the calls that take the lock are the same
+   number, whatever the schedule and the state the epoch starts from; (2) in the run of a valid scenario, under any
+   schedules, every epoch in which the switches so far say "thread-safe" has as many locked calls as calls *)
+Theorem C10_every_call_takes_the_lock :
+  (forall c sched st, wiring_ok (cfg_wiring c) = true ->
+     exists calls, epoch_counts c sched st = (calls, calls) /\ (N.of_nat probe_calls <= calls)%N)
+  /\ (forall s sched scheds i, valid s = true -> nth i (doc_flags s) false = true ->
+        exists calls, nth_error (o_epochs (run (resched s sched scheds))) i = Some (calls, calls)
+                      /\ (N.of_nat probe_calls <= calls)%N).
+Proof. exact every_call_locked. Qed.
+Print Assumptions C10_every_call_takes_the_lock.
+Example C10_every_call_takes_the_lock_sat :
+  valid sw_scenario = true
+  /\ o_epochs (run sw_scenario) = [(17, 17); (19, 19); (17, 17); (15, 0); (20, 20)]%N
+  /\ doc_flags sw_scenario = [true; true; true; false; true].
+Proof. exact (conj sw_valid (conj (proj1 (proj2 (proj2 sw_run_obs))) (proj1 (proj2 (proj2 (proj2 sw_run_obs)))))). Qed.
+
+(* every state of every epoch of a valid scenario (epoch_start s scheds = the threads armed for the epoch that follows the
+   epochs run with the schedules scheds; then any schedule inside it): mutual exclusion, what a thread has read is current
+   when it writes, the lock is only with a thread inside a wrapper, at most one thread in the locked region -- in the state
+   and over the whole epoch --, and the epoch can be run to its end *)
+Theorem C10_every_epoch_thread_safe : forall s scheds pa sched, valid s = true -> epoch_start s scheds = Some pa ->
+  let c := sw_cfg (sc_outalloc s) true (pr_sw pa) in
+  let st := exec c sched (pr_st pa) in
+  (forall t1 t2 th1 th2, nth_error (st_threads st) t1 = Some th1 -> nth_error (st_threads st) t2 = Some th2 ->
+                          in_cs (th_phase th1) = true -> in_cs (th_phase th2) = true -> t1 = t2)
+  /\ (forall t th snap, nth_error (st_threads st) t = Some th -> th_phase th = PRead snap -> snap = st_sh st)
+  /\ (forall t th, nth_error (st_threads st) t = Some th -> in_cs (th_phase th) = false -> st_lock st <> LHeld t)
+  /\ occupancy st <= 1 /\ run_peak c sched (pr_st pa) <= 1
+  /\ all_done (complete c st) = true.
+Proof. exact every_epoch. Qed.
+Print Assumptions C10_every_epoch_thread_safe.
+Example C10_every_epoch_thread_safe_sat :
+  exists pa, epoch_start sw_scenario [[1; 0; 0; 1]; []] = Some pa
+             /\ occupancy (exec (sw_cfg true true (pr_sw pa)) [1; 1] (pr_st pa)) = 1.
+Proof. exact sw_epoch_example. Qed.
+
+(* save / restore that remember only "the overloads were on" and switch the default overloads back on (not the code: the
+   seeded change C10-2 of round 4): after saveAndDisable; restore the meaning says "thread-safe" and the wiring is the
+   unlocked one; the run of the scenario whose second epoch follows that pair does not satisfy the oracle (the probe's
+   fifteen calls take no lock) *)
+Theorem C10_switches_old_refuted :
+  ~ (forall h, hist_ok h 0 = true -> doc_safe h = true -> sw_cur (fold_left sw_step_old h (sw_start ts_table)) = ts_table)
+  /\ ~ (forall s, valid s = true -> spec s (run_swold s) = true).
+Proof. exact (conj switches_old_refuted run_swold_refuted). Qed.
+Print Assumptions C10_switches_old_refuted.
